@@ -468,6 +468,12 @@ def slice_C02(ctx):
     for p in ["^.*\n", "^a\n", "^[ab]+\n", "^.*$\n?", "^a?\n", "(?:^b\n)+?", "^.\n|^..\n"]:
         for inp in gen.all_strings("a\n", 5) + ["l1\nl2\nl3", "a\nb\na\n", "ab\n\nab\n"]:
             tuples.append(("xpath", "m", p, inp, "", "lines"))
+    # an exact count over a body that can match in more than one way: an earlier repetition has to be
+    # revised when a later one (or what follows) fails
+    for p in ["(?:a|ab){2}c", "(?:a+){2}b", "(?:ab?){2}b", "(?:a|ab){3}", "(?:ab|a){2}bc", "x(?:a|ab|abc){2}c", "(?:a*b?){2}c", "(?:a|ab){2}?c",
+              "(?:[ab]|ab){2}b", "(?:a|ab){2,2}c"]:
+        for inp in gen.all_strings("abc", 5) + ["xabac-aac", "aaab", "ababc", "xaabcc", "abababc"]:
+            tuples.append(("xpath", "", p, inp, "", "exact-count"))
     # long inputs: a start position that needs well over a thousand single give-backs of a greedy
     # repeat before it succeeds (or before the scan may move on) - no bound on backtracking depth
     for p, inp in [("[ab][^b]*c", "ac" + "z" * 1500 + "bc"), (".*x", "x" + "a" * 1200), ("a[^c]*cd", "a" + "b" * 1100 + "cd" + "b" * 1100 + "c"),
